@@ -248,3 +248,74 @@ def deep_calls(fv, e, depth=3, at=None):
         if d is not None and not (isinstance(d, tuple) and d and d[0] == "var" and d[1] == v):
             out.extend(deep_calls(fv, d, depth - 1, at))
     return out
+
+
+def closure_flow_blocks(fv, bi, local):
+    """Blocks of calls that receive (directly or through the results of earlier such calls: map -> filter -> extend ..)
+    the closure value created into `local` in block `bi`."""
+    tainted = {local}
+    out = []
+    order = sorted(b for b in fv.live if b == bi or b in fv.reach_after(bi) or b in fv.reach(bi))
+    changed = True
+    while changed:
+        changed = False
+        for b in order:
+            for s in fv.blocks[b]["s"]:
+                rv = s.get("rv")
+                if not rv:
+                    continue
+                ls = set()
+                _locals_of(rv, ls)
+                if ls & tainted and s["p"]["l"] not in tainted:
+                    tainted.add(s["p"]["l"])
+                    changed = True
+            t = fv.blocks[b]["t"]
+            if t["t"] == "call":
+                ls = set()
+                _locals_of(t.get("args", []), ls)
+                if ls & tainted:
+                    if b not in out:
+                        out.append(b)
+                    d = t.get("dest")
+                    if d and d["l"] not in tainted:
+                        tainted.add(d["l"])
+                        changed = True
+    return out
+
+
+def _locals_of(x, out):
+    if isinstance(x, dict):
+        if "l" in x and isinstance(x["l"], int):
+            out.add(x["l"])
+        for v in x.values():
+            _locals_of(v, out)
+    elif isinstance(x, list):
+        for v in x:
+            _locals_of(v, out)
+
+
+def emission_blocks(prog, fv, adt_rx, variant):
+    """Blocks of `fv` at which a value `adt::variant` can come into being: aggregate statements in the body itself, and for
+    aggregates built inside a closure of the body (iterator chains: `.map(|x| Update::Reach{..})`), the calls the closure
+    value flows into."""
+    out = [b for b, si, s in fv.aggregates(adt_rx, variant)]
+    for ck in prog.with_closures(fv.key):
+        if ck == fv.key:
+            continue
+        cv = view(prog, ck)
+        if not cv.aggregates(adt_rx, variant):
+            continue
+        # the closure (or an enclosing closure) is created somewhere in fv
+        chain = [ck]
+        p = prog.ix[ck].get("parent")
+        while p and p != fv.key and p in prog.ix:
+            chain.append(p)
+            p = prog.ix[p].get("parent")
+        top = chain[-1]
+        for b in sorted(fv.live):
+            for s in fv.blocks[b]["s"]:
+                rv = s.get("rv")
+                if rv and rv["r"] == "agg" and rv.get("k") == "closure" and rv.get("def") == top:
+                    out.append(b)
+                    out.extend(closure_flow_blocks(fv, b, s["p"]["l"]))
+    return sorted(set(out))
